@@ -9,6 +9,7 @@ import CookModel.Driver.Ffi
 import CookModel.Driver.Serde
 import CookModel.Driver.Builder
 import CookModel.Driver.Tie
+import CookModel.Driver.Report
 /- Registry of line-protocol handlers. One line per area. -/
 namespace Cook.Driver
 def handlers : List (List String → Option String) := [
@@ -22,6 +23,7 @@ def handlers : List (List String → Option String) := [
   handleFfi,
   handleSerde,
   handleBuilder,
-  handleTie
+  handleTie,
+  handleReport
 ]
 end Cook.Driver
